@@ -18,6 +18,7 @@ import SkNet.Lemmas.RankExt
 import SkNet.Lemmas.RankCloseness
 import SkNet.Lemmas.RankBrandesSpec
 import Mathlib.Algebra.Order.Archimedean.Basic
+import SkNet.Lemmas.RankEquiv
 
 open Finset
 
@@ -458,6 +459,131 @@ theorem brandes_dependency (n : ℕ) (nbr : ℕ → List ℕ) (hnbr : ∀ u, ∀
 /-- non-vacuity: the path `0 — 1 — 2` : only the middle node lies between two others -/
 example : (betweenness 3 (fun i => if i = 0 then [1] else if i = 1 then [0, 2] else if i = 2 then [1] else []) true
     : Option (List ℚ)) = some [0, 1, 0] := by decide +kernel
+
+/-! ## renumbering the nodes renumbers the scores (the C04 share of C02)
+
+`SkNet.WL.IsPerm n π πinv` : `π`, `πinv` are inverse bijections of `{0..n-1}`.  The renumbered graph is any weight function /
+edge predicate / adjacency lists with `w' (π i) (π j) = w i j` on `{0..n-1}`. -/
+
+/-- the cyclic shift of `{0,1,2}` used by the non-vacuity examples -/
+theorem shift3_isPerm : SkNet.WL.IsPerm 3 (fun i => (i + 1) % 3) (fun i => (i + 2) % 3) :=
+  ⟨by decide, by decide, by decide, by decide⟩
+
+/-- a statement about pairs of nodes below 3, in the form `decide` can evaluate -/
+theorem pairs3 {P : ℕ → ℕ → Prop} (h : ∀ i, i < 3 → ∀ j, j < 3 → P i j) : ∀ i j, i < 3 → j < 3 → P i j :=
+  fun i j hi hj => h i hi j hj
+
+/-- ★ `prSpec_equivariant` : the PageRank vector of the renumbered graph with the renumbered restart distribution is the
+    renumbered PageRank vector, `z (π i) = x i`, for every `n` and every permutation (existence and uniqueness:
+    `prSpec_exists`, `prSpec_unique`). -/
+theorem prSpec_equivariant (n : ℕ) (π πinv : ℕ → ℕ) (hp : SkNet.WL.IsPerm n π πinv) (w w' : ℕ → ℕ → ℚ)
+    (hw' : ∀ i j, 0 ≤ w' i j) (hww : ∀ i j, i < n → j < n → w' (π i) (π j) = w i j) (a : ℚ) (ha : 0 ≤ a) (ha1 : a < 1)
+    (y y' : ℕ → ℚ) (hy : sumTo n y = 1) (hyy : ∀ i, i < n → y' (π i) = y i) (x z : ℕ → ℚ)
+    (hx : IsPageRank n w a y x) (hz : IsPageRank n w' a y' z) : ∀ i, i < n → z (π i) = x i := by
+  have hy' : sumTo n y' = 1 := by
+    rw [← Equiv.sumTo_perm hp y', ← hy, sumTo_eq, sumTo_eq]
+    exact sum_congr rfl fun j hj => hyy j (mem_range.mp hj)
+  have hrel : IsPageRank n w' a y' (fun k => x (πinv k)) :=
+    Equiv.isPageRank_relabel hp hww hyy (fun i hi => by show x (πinv (π i)) = x i; rw [hp.left i hi]) a hx
+  intro i hi
+  have := prSpec_unique n w' hw' a ha ha1 y' hy' z _ hz hrel (π i) (hp.lt i hi)
+  rw [this]; show x (πinv (π i)) = x i; rw [hp.left i hi]
+
+/-- the transport itself: a renumbered PageRank vector is a PageRank vector of the renumbered graph -/
+theorem prSpec_relabel (n : ℕ) (π πinv : ℕ → ℕ) (hp : SkNet.WL.IsPerm n π πinv) (w w' : ℕ → ℕ → ℚ)
+    (hww : ∀ i j, i < n → j < n → w' (π i) (π j) = w i j) (a : ℚ) (y y' x x' : ℕ → ℚ)
+    (hyy : ∀ i, i < n → y' (π i) = y i) (hxx : ∀ i, i < n → x' (π i) = x i) (hx : IsPageRank n w a y x) :
+    IsPageRank n w' a y' x' :=
+  Equiv.isPageRank_relabel hp hww hyy hxx a hx
+
+/-- non-vacuity: the graph `0 → 1` on 3 nodes and its shifted copy `1 → 2`, uniform restart, damping 1/2 -/
+example : IsPageRank 3 (fun i j => if i = 1 ∧ j = 2 then 1 else 0) (1/2) (fun _ => 1/3)
+    (fun k => ([2/7, 3/7, 2/7] : List ℚ).getD ((k + 2) % 3) 0) :=
+  prSpec_relabel 3 _ _ shift3_isPerm (fun i j => if i = 0 ∧ j = 1 then 1 else 0) _
+    (pairs3 (by decide +kernel)) (1/2) (fun _ => 1/3) _ (fun i => ([2/7, 3/7, 2/7] : List ℚ).getD i 0) _
+    (fun _ _ => rfl) (by decide +kernel) (isPageRankB_sound _ _ _ _ _ (by decide +kernel))
+
+/-- ★ every solver is equivariant up to its error bound: if two outputs are within `B` (ℓ1) of the PageRank vectors of a
+    graph and of its renumbered copy, they are renumberings of each other up to `2B` — with `rh_error`, `piter_stop_error`,
+    `diteration_error`, `bicgstab_contract` this covers the solvers of the model. -/
+theorem solver_equivariant_up_to_bound (n : ℕ) (π πinv : ℕ → ℕ) (hp : SkNet.WL.IsPerm n π πinv) (x z u u' : ℕ → ℚ)
+    (hzx : ∀ i, i < n → z (π i) = x i) (B : ℚ) (hu : sumTo n (fun i => |u i - x i|) ≤ B)
+    (hu' : sumTo n (fun i => |u' i - z i|) ≤ B) : sumTo n (fun i => |u' (π i) - u i|) ≤ 2 * B := by
+  rw [← Equiv.sumTo_perm hp (fun i => |u' i - z i|)] at hu'
+  rw [sumTo_eq] at hu hu' ⊢
+  calc ∑ i ∈ range n, |u' (π i) - u i| ≤ ∑ i ∈ range n, (|u' (π i) - z (π i)| + |u i - x i|) := by
+        apply sum_le_sum; intro i hi
+        have e : u' (π i) - u i = (u' (π i) - z (π i)) - (u i - x i) := by rw [hzx i (mem_range.mp hi)]; ring
+        rw [e]; exact abs_sub _ _
+    _ ≤ 2 * B := by rw [sum_add_distrib]; linarith
+
+/-- ★ `katz_equivariant` : Katz scores (model and walk-count definition) of the renumbered graph are the renumbered scores -/
+theorem katz_equivariant (n : ℕ) (π πinv : ℕ → ℕ) (hp : SkNet.WL.IsPerm n π πinv) (edge edge' : ℕ → ℕ → Bool)
+    (he : ∀ i j, i < n → j < n → edge' (π i) (π j) = edge i j) (a : ℚ) (K : ℕ) :
+    ∀ i, i < n → katzSpec n edge' a K (π i) = katzSpec n edge a K i ∧
+      (katz n edge' a K).getD (π i) 0 = (katz n edge a K).getD i 0 := by
+  intro i hi
+  have h := Equiv.katzSpec_perm hp he a K hi
+  exact ⟨h, by rw [katz_eq_def n edge' a K (π i) (hp.lt i hi), katz_eq_def n edge a K i hi, h]⟩
+
+example : (katz 3 (fun i j => decide (i = 1 ∧ j = 2)) (1/2 : ℚ) 2).getD ((2 + 1) % 3) 0
+    = (katz 3 (fun i j => decide (i = 0 ∧ j = 1)) (1/2 : ℚ) 2).getD 2 0 :=
+  (katz_equivariant 3 _ _ shift3_isPerm _ _ (pairs3 (by decide)) (1/2) 2 2 (by decide)).2
+
+/-- ★ `closeness_equivariant` : hop distances, the closeness of the specification and the output of `Closeness` are
+    renumbered with the nodes -/
+theorem closeness_equivariant (n : ℕ) (hn : 0 < n) (π πinv : ℕ → ℕ) (hp : SkNet.WL.IsPerm n π πinv)
+    (edge edge' : ℕ → ℕ → Bool) (he : ∀ i j, i < n → j < n → edge' (π i) (π j) = edge i j) :
+    (∀ s v, s < n → v < n → RankSpec.dist n edge' (π s) (π v) = RankSpec.dist n edge s v) ∧
+    (∀ i, i < n → closenessSpec n edge' (π i) = closenessSpec n edge i) ∧
+    ∃ sc sc' : List ℚ, closeness n edge = some sc ∧ closeness n edge' = some sc' ∧
+      ∀ i, i < n → sc'.getD (π i) 0 = sc.getD i 0 := by
+  refine ⟨fun s v hs hv => Equiv.dist_perm hp he hs hv, fun i hi => Equiv.closenessSpec_perm hp he hi, ?_⟩
+  obtain ⟨sc, hsc, hval⟩ := closeness_eq_spec n hn edge
+  obtain ⟨sc', hsc', hval'⟩ := closeness_eq_spec n hn edge'
+  exact ⟨sc, sc', hsc, hsc', fun i hi => by
+    rw [hval' (π i) (hp.lt i hi), hval i hi, Equiv.closenessSpec_perm hp he hi]⟩
+
+example : closenessSpec 3 (fun i j => decide ((i + 1) % 3 = j)) ((0 + 1) % 3)
+    = closenessSpec 3 (fun i j => decide ((i + 1) % 3 = j)) 0 :=
+  (closeness_equivariant 3 (by decide) _ _ shift3_isPerm _ _ (pairs3 (by decide))).2.1 0 (by decide)
+
+/-- ★ `betweenness_equivariant` : the shortest-path counts, the pair dependencies `σ_st(v)/σ_st`, Brandes' sums of the
+    specification, and (with `brandes_dependency`) the output of `Betweenness.fit` on adjacency lists are renumbered with the
+    nodes -/
+theorem betweenness_equivariant (n : ℕ) (π πinv : ℕ → ℕ) (hp : SkNet.WL.IsPerm n π πinv)
+    (nbr nbr' : ℕ → List ℕ) (hnbr : ∀ u, ∀ v ∈ nbr u, v < n) (hnbr' : ∀ u, ∀ v ∈ nbr' u, v < n)
+    (hnd : ∀ u, (nbr u).Nodup) (hnd' : ∀ u, (nbr' u).Nodup)
+    (he : ∀ i j, i < n → j < n → Brandes.edgeOf nbr' (π i) (π j) = Brandes.edgeOf nbr i j) (symmetric : Bool) :
+    (∀ v, v < n → dependencySum n (Brandes.edgeOf nbr') (π v) = dependencySum n (Brandes.edgeOf nbr) v) ∧
+    (∀ v, v < n → betweennessSpec n (Brandes.edgeOf nbr') (π v) = betweennessSpec n (Brandes.edgeOf nbr) v) ∧
+    ∃ sc sc' : List ℚ, betweenness n nbr symmetric = some sc ∧ betweenness n nbr' symmetric = some sc' ∧
+      ∀ v, v < n → sc'.getD (π v) 0 = sc.getD v 0 := by
+  refine ⟨fun v hv => Equiv.dependencySum_perm hp he hv, fun v hv => Equiv.betweennessSpec_perm hp he hv, ?_⟩
+  obtain ⟨sc, hsc, hval⟩ := brandes_dependency n nbr hnbr hnd symmetric
+  obtain ⟨sc', hsc', hval'⟩ := brandes_dependency n nbr' hnbr' hnd' symmetric
+  refine ⟨sc, sc', hsc, hsc', fun v hv => ?_⟩
+  rw [hval' (π v) (hp.lt v hv), hval v hv]
+  cases symmetric
+  · simp only [Bool.false_eq_true, if_false]; exact Equiv.dependencySum_perm hp he hv
+  · simp only [if_true]; exact Equiv.betweennessSpec_perm hp he hv
+
+/-- the pair dependency itself -/
+theorem pairDep_equivariant (n : ℕ) (π πinv : ℕ → ℕ) (hp : SkNet.WL.IsPerm n π πinv) (edge edge' : ℕ → ℕ → Bool)
+    (he : ∀ i j, i < n → j < n → edge' (π i) (π j) = edge i j) (s t v : ℕ) (hs : s < n) (ht : t < n) (hv : v < n) :
+    pairDep n edge' (π s) (π t) (π v) = pairDep n edge s t v :=
+  Equiv.pairDep_perm hp he hs ht hv
+
+/-- non-vacuity: the path `0 — 1 — 2` and its shifted copy `1 — 2 — 0` -/
+example : ∃ sc sc' : List ℚ,
+    betweenness 3 (fun i => if i = 0 then [1] else if i = 1 then [0, 2] else if i = 2 then [1] else []) true = some sc ∧
+    betweenness 3 (fun i => if i = 1 then [2] else if i = 2 then [1, 0] else if i = 0 then [2] else []) true = some sc' ∧
+    ∀ v, v < 3 → sc'.getD ((v + 1) % 3) 0 = sc.getD v 0 :=
+  (betweenness_equivariant 3 _ _ shift3_isPerm _ _
+    (by intro u v hv; split_ifs at hv <;> simp at hv <;> omega)
+    (by intro u v hv; split_ifs at hv <;> simp at hv <;> omega)
+    (by intro u; split_ifs <;> decide) (by intro u; split_ifs <;> decide)
+    (pairs3 (by decide)) true).2.2
 
 /-! ## push (F-push: the kernel as written does not compute PageRank) -/
 
